@@ -27,6 +27,11 @@ def _df():
         "group": ["g1", "g2", "g1", "g2"], "feat": ["x", "x", "y", "x"], "feat2": ["u", "v", "u", "u"]}, index=[4, 5, 6, 7])
 
 
+def _guard(df):
+    from mc.canon import guarded_frame
+    return guarded_frame(df)
+
+
 def _cm_df():
     import pandas as pd
     return pd.DataFrame({"cdr3a": ["CAV", "CAVR", "CAL", "CSV"], "cdr3b": ["CASS", "CAST", "CASS", "CSSS"], "meta": ["a", "b", "a", "b"]})
@@ -179,6 +184,22 @@ def ops():
     lazy("fixture-WeightedLevenshtein-cdist", lambda: (fixtures()["wlev_123"].calc_cdist_matrix, (list(SEQS), list(SEQS2)), {}))
     lazy("fixture-SymdelDB-lookup", lambda: (fixtures()["symdeldb"].lookup, (list(SEQS2),), {}))
     lazy("fixture-SymdelDB-lookup-hamming", lambda: (fixtures()["symdeldb"].lookup, (list(SEQS),), {"custom_distance": "hamming"}))
+    # a long-lived metric object on which a call fails half-way (paired-chain metric, beta-only table), then is used normally again
+    lazy("raise-fixture-Cdr3Levenshtein-pdist-beta-only", lambda: (fixtures()["cdr3lev_a3"].calc_pdist_vector, (_df()[["TRBV", "CDR3B"]],), {}))
+    lazy("raise-fixture-Cdr3Levenshtein-pcDelta-beta-only", lambda: (prs.pcDelta, (_df()[["TRBV", "CDR3B"]],), {"metric": fixtures()["cdr3lev_a3"], "bins": [0, 1, 2, 3]}))
+    lazy("raise-fixture-CdrLevenshtein-cdist-alpha-only", lambda: (fixtures()["cdrlev_b2"].calc_cdist_matrix, (_df()[["TRAV", "CDR3A"]], _df()), {}))
+    # the caller's table handed over as an object that records every write to itself, also writes undone before the call returns
+    lazy("guarded-pc_grouped_cross-list-on", lambda: (prs.pc_grouped_cross, (_guard(_df()), "group", ["feat", "feat2"]), {}))
+    lazy("guarded-pc_conditional", lambda: (prs.pc_conditional, (_guard(_df()), ["group"], ["feat", "feat2"]), {"group_weights": [1, 2]}))
+    lazy("guarded-pc_joint", lambda: (prs.pc_joint, (_guard(_df()), ["feat", "feat2"], _guard(_df().iloc[:3])), {}))
+    lazy("guarded-pcDelta_grouped_cross", lambda: (prs.pcDelta_grouped_cross, (_guard(_df()), "group", "CDR3B"), {"bins": [0, 1, 2, 3], "condensed": True}))
+    lazy("guarded-renyi2_entropy", lambda: (prs.renyi2_entropy, (_guard(_df()), "feat"), {"by": "group", "base": 2.0}))
+    lazy("guarded-pcDelta-table", lambda: (prs.pcDelta, (_guard(_df()), _guard(_df().iloc[1:])), {"bins": [0, 1, 2, 3]}))
+    lazy("guarded-hierarchical_clustering-table", lambda: (prs.hierarchical_clustering, (_guard(_df()),), {}))
+    lazy("guarded-standardize_dataframe", lambda: (prs.standardize_dataframe, (_guard(_raw_df()),), {"suppress_warnings": True}))
+    lazy("guarded-multimerge", lambda: (prs.multimerge, ([_guard(pd.DataFrame({"k": [1, 2], "v": [3, 4]})), _guard(pd.DataFrame({"k": [2, 3], "v": [5, 6]}))], "k", ["a", "b"]), {}))
+    lazy("guarded-CdrLevenshtein-cdist", lambda: (CdrLevenshtein().calc_cdist_matrix, (_guard(_df()), _guard(_df().iloc[::-1])), {}))
+    lazy("guarded-similarity_clustermap", lambda: (P.similarity_clustermap, (_guard(_cm_df()),), {}), seed=29)
     # one index object asked with a distance function and a tight / an unlimited radius, then (in the histories) asked plainly again
     lazy("fixture-SymdelDB-lookup-custom-tight", lambda: (fixtures()["symdeldb"].lookup, (list(SEQS2),), {"custom_distance": _lev_half, "max_custom_distance": 0.5}))
     lazy("fixture-SymdelDB-lookup-custom-wide", lambda: (fixtures()["symdeldb"].lookup, (list(SEQS2),), {"custom_distance": _lev_double}))
